@@ -731,3 +731,35 @@ def td_total_us(x: object) -> int:
 EPOCH_US = 62135596800000000
 # 9999-12-31T23:59:59.999999
 MAX_DT_US = 315537897599999999
+
+
+@spec
+def all_truthy(xs: list) -> bool:
+    """all(xs)"""
+    return ALL_TRUTHY(xs, len(xs))
+
+
+@spec
+def ALL_TRUTHY(xs: list, hi: int) -> bool:
+    if hi <= 0:
+        return True
+    return ALL_TRUTHY(xs, hi - 1) and bool(xs[hi - 1])
+
+
+@spec
+def any_truthy(xs: list) -> bool:
+    """any(xs)"""
+    return ANY_TRUTHY(xs, len(xs))
+
+
+@spec
+def ANY_TRUTHY(xs: list, hi: int) -> bool:
+    if hi <= 0:
+        return False
+    return ANY_TRUTHY(xs, hi - 1) or bool(xs[hi - 1])
+
+
+@axiom("int_to_bytes_signed_big")
+def ax_to_bytes_signed_big_len(x: int, n: int) -> bool:
+    """int.to_bytes(n, "big", signed=True) has exactly n bytes whenever it is defined"""
+    return not (n >= 1 and FITS_SIGNED(x, n)) or len(int_to_bytes_signed_big(x, n)) == n
